@@ -44,6 +44,7 @@ fn trait_name(chain: &str) -> &'static str {
         "objs" => "OLedger",
         "bounds" => "BLedger",
         "futs" => "FLedger",
+        "recv" => "RLedger",
         _ => "ArgInterfaceV2",
     }
 }
@@ -131,9 +132,33 @@ fn exec(h: &History, revs: &[Rev]) -> HistOut {
             }
         }
     }
+    if let Some(rn) = h.start.strip_prefix("legacy-format:") {
+        // a directory populated by an earlier release of the library (data version 1 files) for revision `rn`
+        if let Some(rev) = rev_by_name(revs, rn) {
+            if (rev.legacy)(&dir.to_string_lossy()).is_ok() {
+                for v in 0..=rev.latest {
+                    recorded.insert(v, rn.to_string());
+                }
+                out.probes.push("directory_written_by_earlier_release");
+            }
+        }
+    }
     // versions whose ledger file was torn by a fault (writer killed, disk full) after it had been recorded
     let mut torn: std::collections::BTreeSet<u32> = Default::default();
     for (i, rn) in h.runs.iter().enumerate() {
+        if let Some(rest) = rn.strip_prefix("lose:") {
+            // a storage fault, not a run: one ledger file disappears (restored from a partial backup, cleaned up by
+            // hand); the versions that are still on record keep their force
+            let v: u32 = rest.parse().unwrap_or(0);
+            let f = dir.join(format!("savefile_{}_{}.schema", tn, v));
+            if std::fs::remove_file(&f).is_ok() {
+                recorded.remove(&v);
+                torn.remove(&v);
+                out.probes.push("ledger_file_lost");
+                hh.str(rn);
+            }
+            continue;
+        }
         if let Some(rest) = rn.strip_prefix("tear:") {
             // a storage fault, not a run: cut an existing ledger file short (keep `keep` per mille of its bytes)
             let mut it = rest.split(':');
@@ -292,7 +317,7 @@ fn exec(h: &History, revs: &[Rev]) -> HistOut {
 
 fn gen_history(seed: u64, revs: &[Rev], thorough: bool) -> History {
     let mut rng = Rng::new(seed);
-    let chain = *rng.pick(&["plain", "plain", "async", "objs", "objs", "argv2", "bounds", "futs"]);
+    let chain = *rng.pick(&["plain", "plain", "async", "objs", "objs", "argv2", "bounds", "futs", "recv"]);
     let members: Vec<&Rev> = revs.iter().filter(|r| r.chain == chain).collect();
     let good: Vec<&&Rev> = members.iter().filter(|r| !r.name.contains("_b_")).collect();
     let n = rng.range(1, 6);
@@ -312,6 +337,10 @@ fn gen_history(seed: u64, revs: &[Rev], thorough: bool) -> History {
         let at = rng.range(1, runs.len() as u64 - 1) as usize;
         runs.insert(at, format!("tear:{}:{}", rng.below(3), rng.below(1000)));
     }
+    if runs.len() >= 2 && rng.chance(1, 6) {
+        let at = rng.range(1, runs.len() as u64 - 1) as usize;
+        runs.insert(at, format!("lose:{}", rng.below(3)));
+    }
     if rng.chance(1, 6) {
         // one run happens while the disk is full; half the time the same revision runs again right afterwards
         let at = rng.below(runs.len() as u64) as usize;
@@ -323,8 +352,15 @@ fn gen_history(seed: u64, revs: &[Rev], thorough: bool) -> History {
             }
         }
     }
-    let start = if chain == "argv2" && rng.chance(2, 3) { "earlier-build" } else { "empty" };
-    History { chain: chain.to_string(), start: start.into(), runs, fresh_process: thorough && rng.chance(1, 8), seed }
+    let start: String = if chain == "argv2" && rng.chance(2, 3) {
+        "earlier-build".into()
+    } else if ["plain", "recv", "bounds", "objs"].contains(&chain) && rng.chance(1, 5) {
+        // the earlier format cannot say "async": only chains without async methods can have been recorded by it
+        format!("legacy-format:{}", good[rng.below(good.len() as u64) as usize].name)
+    } else {
+        "empty".into()
+    };
+    History { chain: chain.to_string(), start, runs, fresh_process: thorough && rng.chance(1, 8), seed }
 }
 
 fn main() {
@@ -451,11 +487,23 @@ fn fixed_or_seeded(i: u64, seed: u64, revs: &[Rev], thorough: bool) -> History {
     for name in ["argv2", "argv2_next", "argv2_b_enum_arg"] {
         fixed.push(History { chain: "argv2".into(), start: "earlier-build".into(), runs: vec![name.into(), name.into(), "argv2".into()], fresh_process: false, seed: 0 });
     }
-    for chain in ["plain", "async", "objs", "argv2", "bounds", "futs"] {
+    for chain in ["plain", "async", "objs", "argv2", "bounds", "futs", "recv"] {
         let m: Vec<&Rev> = revs.iter().filter(|r| r.chain == chain).collect();
         for a in &m {
             for b in &m {
                 fixed.push(History { chain: chain.into(), start: "empty".into(), runs: vec![a.name.into(), a.name.into(), b.name.into(), b.name.into()], fresh_process: false, seed: 0 });
+            }
+        }
+    }
+    // a record goes missing between two revisions; a directory written by an earlier release
+    for chain in ["plain", "recv"] {
+        let m: Vec<&Rev> = revs.iter().filter(|r| r.chain == chain).collect();
+        for a in &m {
+            for b in &m {
+                fixed.push(History { chain: chain.into(), start: "empty".into(), runs: vec![a.name.into(), "lose:0".into(), b.name.into(), b.name.into()], fresh_process: false, seed: 0 });
+                if !a.name.contains("_b_") {
+                    fixed.push(History { chain: chain.into(), start: format!("legacy-format:{}", a.name), runs: vec![a.name.into(), b.name.into(), b.name.into()], fresh_process: false, seed: 0 });
+                }
             }
         }
     }
